@@ -176,6 +176,8 @@ where
     for d in 0..d_max as isize {
         // are we running for too long?
         if deadline_exceeded(deadline) {
+            #[cfg(similar_verif)]
+            crate::verif::hit(1);
             break;
         }
 
@@ -306,11 +308,15 @@ where
         vb,
         deadline,
     ) {
+        #[cfg(similar_verif)]
+        crate::verif::hit(28);
         let (old_a, old_b) = split_at(old_range, x_start);
         let (new_a, new_b) = split_at(new_range, y_start);
         conquer(d, old, old_a, new, new_a, vf, vb, deadline)?;
         conquer(d, old, old_b, new, new_b, vf, vb, deadline)?;
     } else {
+        #[cfg(similar_verif)]
+        crate::verif::hit(0);
         d.delete(
             old_range.start,
             old_range.end - old_range.start,
